@@ -300,3 +300,19 @@ Definition multi_oracle_bad (c : multi_case) : bool :=
            | Some ids => list_eqb Z.eqb ids (ids_of (fst (hd ([], []) (last (mc_snaps c) []))))
            | None => true
            end).
+
+(** * The public logging calls
+    (severity, number of arguments after the format, the format, what package
+    fmt makes of format and arguments — Sprintf, or Sprint for Info / Warning /
+    Error, whose format is empty —, and the severity and message read back from
+    the log files; severity -1: nothing was read back).  MakeMessage
+    (structured.go): a format without arguments is the message, verbatim
+    (a '%' in it is not a verb); otherwise fmt decides. *)
+Definition api_case := (Z * Z * list byte * list byte * Z * list byte)%type.
+
+Definition make_message (nargs : Z) (format fmt_result : list byte) : list byte :=
+  if nargs =? 0 then format else fmt_result.
+
+Definition api_bad (c : api_case) : bool :=
+  let '(sev, nargs, format, fmt_result, osev, obs) := c in
+  negb ((sev =? osev) && bytes_eqb obs (make_message nargs format fmt_result)).
